@@ -114,7 +114,9 @@ class Env:
         return interpolate.interp1d(t, rec, bounds_error=False, fill_value=(0, rec[-1]))(QUERY)
 
 
-def run_history(env, h, shared_buffers=False):
+def run_history(env, h, shared_buffers=False, caller_scales_results=False):
+    """caller_scales_results: the caller converts every recovery array it is handed to per cent IN PLACE (rf *= 100) right after the
+    call - what it was handed is its own; later calls on the object must not see it"""
     obj = env.new()
     outs = []
     bufs = {} if shared_buffers else None
@@ -122,6 +124,14 @@ def run_history(env, h, shared_buffers=False):
         try:
             with warnings.catch_warnings():
                 warnings.simplefilter("ignore")
+                if caller_scales_results and op[0] in (2, 3):
+                    handed = obj.recovery_factor() if op[0] == 2 else obj.recovery_factor(density=True)
+                    outs.append(np.array(handed, float))
+                    try:
+                        handed *= 100.0
+                    except Exception:  # noqa: BLE001, S110
+                        pass
+                    continue
                 outs.append(env.apply(obj, op, bufs))
         except RuntimeError:
             outs.append("RuntimeError")
@@ -254,6 +264,7 @@ def run(ctx):
         nviol = 0
         nviol_b = 0
         nviol_k = 0
+        nviol_m = 0
         for h, sym in zip(hs, syms):
             outs, state = run_history(env, h)
             msg = compare(env, h, sym, outs, state)
@@ -272,6 +283,14 @@ def run(ctx):
                     nviol_b += 1
                     ctx.violations.append(dict(what=f"{cls.__name__} (caller refills and reuses the same time array between simulate calls): {msg_b}", key=cls.__name__ + "buf" + msg_b[:40],
                                                input=dict(cls=cls.__name__, history=h, caller_reuses_buffers=True), observed=msg_b))
+            if any(op[0] in (2, 3) for op in h[:-1]) and nviol_m < 3:
+                outs_m, state_m = run_history(env, h, caller_scales_results=True)
+                msg_m = compare(env, h, sym, outs_m, state_m)
+                total += 1
+                if msg_m:
+                    nviol_m += 1
+                    ctx.violations.append(dict(what=f"{cls.__name__} (the caller scales every recovery array it is handed in place, rf *= 100): {msg_m}", key=cls.__name__ + "scaled" + msg_m[:40],
+                                               input=dict(cls=cls.__name__, history=h, caller_scales_returned_arrays_in_place=True), observed=msg_m))
             if sum(1 for op in h if op[0] <= 1) >= 2 and nviol_k < 3:
                 msg_k = kept_outputs_stable(env, h)
                 total += 1
